@@ -26,6 +26,8 @@ Apply(c, t) ==
     [] c = "arr"    -> "{ " \o t \o " }"
     [] c = "gen"    -> "Array<" \o t \o ">"
     [] c = "field"  -> "{ key: " \o t \o " }"
+    [] c = "leadu"  -> "(| " \o t \o " | nil)"          \* a union written with a leading separator, in parentheses
+    [] c = "leadi"  -> "(& " \o t \o " & Other)"
 
 Init == ty \in {"number", "T"} /\ depth = 0
 Step == depth < MaxDepth /\ \E c \in Ctors : ty' = Apply(c, ty) /\ depth' = depth + 1
